@@ -23,23 +23,40 @@
 (***************************************************************************)
 EXTENDS Integers, Sequences, FiniteSets, TLC
 
-CONSTANTS Key, User, MaxId, MaxFaults,
-          ReleaseEarly     \* TRUE: the order of the original code (ID back to the pool before the entry is deleted)
+CONSTANTS
+  \* @type: Set(KEY);
+  Key,
+  \* @type: Set(USER);
+  User,
+  \* @type: Int;
+  MaxId,
+  \* @type: Int;
+  MaxFaults,
+  \* @type: Bool;
+  ReleaseEarly     \* TRUE: the order of the original code (ID back to the pool before the entry is deleted)
 
-VARIABLES pool,      \* FIFO queue of free IDs
-          reg,       \* [Key -> [has: BOOLEAN, id, users: SUBSET User]]   the plug-in's record
-          sw,        \* [Key -> 0 (no entry) or the ID of the entry in the switch]
-          holds,     \* set of <<user, key>>: what the users (FARs / PDRs of live sessions) believe they hold
-          faults,    \* number of failed writes so far
-          clean      \* no write has failed so far
+VARIABLES
+  \* @type: Seq(Int);
+  pool,      \* FIFO queue of free IDs
+  \* @type: KEY -> { has: Bool, id: Int, users: Set(USER) };
+  reg,       \* [Key -> [has: BOOLEAN, id, users: SUBSET User]]   the plug-in's record
+  \* @type: KEY -> Int;
+  sw,        \* [Key -> 0 (no entry) or the ID of the entry in the switch]
+  \* @type: Set(<<USER, KEY>>);
+  holds,     \* set of <<user, key>>: what the users (FARs / PDRs of live sessions) believe they hold
+  \* @type: Int;
+  faults,    \* number of failed writes so far
+  \* @type: Bool;
+  clean      \* no write has failed so far
 vars == <<pool, reg, sw, holds, faults, clean>>
 
 Ids == 1..MaxId
-SeqSet(q) == {q[i] : i \in 1..Len(q)}
+\* @type: (Seq(Int)) => Set(Int);
+SeqSet(q) == {q[i] : i \in DOMAIN q}
 NoReg == [has |-> FALSE, id |-> 0, users |-> {}]
 
 Init ==
-  /\ pool = [i \in 1..MaxId |-> i]
+  /\ pool = SubSeq(<<1, 2, 3, 4, 5, 6, 7, 8>>, 1, MaxId)      \* (a sequence also for Apalache's type checker; MaxId <= 8)
   /\ reg = [k \in Key |-> NoReg] /\ sw = [k \in Key |-> 0]
   /\ holds = {} /\ faults = 0 /\ clean = TRUE
 
@@ -104,7 +121,7 @@ TypeOK ==
 NotFreeWhileInUse == \A k \in Key : sw[k] # 0 => sw[k] \notin SeqSet(pool)
 \* C15: no ID twice in the pool, no ID registered for a key and free at the same time
 NoIdTwice ==
-  /\ \A i, j \in 1..Len(pool) : i # j => pool[i] # pool[j]
+  /\ \A i, j \in DOMAIN pool : i # j => pool[i] # pool[j]
   /\ \A k \in Key : reg[k].has => reg[k].id \notin SeqSet(pool)
 \* C15: an ID denotes one key, in the record and in the switch
 OneKeyPerId ==
